@@ -8,6 +8,8 @@
 # Results: /verif/seeded/<ID>-<A|B>/{patch.diff,demo.rs,meta.json,run.log}
 set -u
 ID=$1; WHICH=$2; shift 2
+# optional: MUT_FEATURES="unsafe_performance" (cargo features the demonstration needs)
+FEAT=""; [ -n "${MUT_FEATURES:-}" ] && FEAT="--features $MUT_FEATURES"
 SRC=/tmp/wt-$ID/OUT
 low=$(echo "$WHICH" | tr 'AB' 'ab')
 OUT=/verif/seeded/$ID-$WHICH
@@ -23,10 +25,10 @@ cp Cargo.toml /tmp/Cargo.toml.$ID.$WHICH
 if grep -q serde_json "$OUT/demo.rs"; then printf '\n[dev-dependencies]\nserde_json = "1"\n' >> Cargo.toml; fi
 mkdir -p tests; cp "$OUT/demo.rs" tests/demo.rs
 echo "== demo on the unchanged source" >>"$LOG"
-if CARGO_NET_OFFLINE=true cargo test --offline --test demo >>"$LOG" 2>&1; then PASS_CLEAN=yes; else PASS_CLEAN=no; fi
+if CARGO_NET_OFFLINE=true cargo test --offline $FEAT --test demo >>"$LOG" 2>&1; then PASS_CLEAN=yes; else PASS_CLEAN=no; fi
 git apply "$OUT/patch.diff" >>"$LOG" 2>&1 || { echo "patch does not apply" | tee -a "$LOG"; cleanup; exit 2; }
 echo "== demo with the change" >>"$LOG"
-if CARGO_NET_OFFLINE=true cargo test --offline --test demo >>"$LOG" 2>&1; then FAIL_MUT=no; else FAIL_MUT=yes; fi
+if CARGO_NET_OFFLINE=true cargo test --offline $FEAT --test demo >>"$LOG" 2>&1; then FAIL_MUT=no; else FAIL_MUT=yes; fi
 rm -rf tests; cp /tmp/Cargo.toml.$ID.$WHICH Cargo.toml; rm -f /tmp/Cargo.toml.$ID.$WHICH
 echo "== existing suite with the change" >>"$LOG"
 if CARGO_NET_OFFLINE=true cargo test --offline --lib >>"$LOG" 2>&1; then SUITE=pass; else SUITE=fail; fi
